@@ -464,6 +464,13 @@ def compute_expected(trace, oracle, tier=None):
             if op['kind'] == 'register':
                 expected[(c, i)] = ('val', None)
                 continue
+            if op['kind'] == 'meth' and op.get('op') in ('deepcopy', 'copy', 'pickle'):
+                # copying / pickling an operand is an event of the history, not an operator: whether and how it
+                # fails depends on what hangs off the algebra (the user's wrapper and simp_func objects), so its own
+                # outcome is not compared - only what later operations return
+                expected[(c, i)] = None
+                costs[(c, i)] = 0
+                continue
             out = oracle.expected(spec, op, limit=per_op, timeout=tl)
             costs[(c, i)] = oracle.last_cost
             if out[0] in bad:
